@@ -285,6 +285,13 @@ class ValuesView:
         self.d, self.what = d, what   # what in values/keys/items
 
 
+class OrdIter:
+    """marker: a dict (view) being enumerated by position in its insertion order (bound variable = position)"""
+
+    def __init__(self, coll):
+        self.coll = coll
+
+
 class SymSet:
     """functional (non-heap) set given by its characteristic array; result of set comprehensions."""
 
@@ -706,9 +713,11 @@ class PathRunner:
         from . import finite
         t0 = time.time()
         try:
-            for es, er in ((2, 5), (4, 9)):
+            # last stage: functions walking long object chains (supvisors -> context -> instances -> status -> id -> view,
+            # plus the collections they build) have no counter-model with fewer than ~20 objects
+            for es, er, ms in ((2, 5, 3000), (4, 9, 3000), (3, 22, 20000)):
                 try:
-                    r, m, info = finite.refute(self.pc, neg, es, er, 3000, self.str_consts)
+                    r, m, info = finite.refute(self.pc, neg, es, er, ms, self.str_consts)
                 except z3.Z3Exception as e:
                     return z3.unknown, 'z3', None
                 if r == z3.sat:
